@@ -350,6 +350,21 @@ Proof.
   rewrite (loc_eqb_neq _ _ N). reflexivity.
 Qed.
 
+Lemma lookup_remove_other l l' s : l' <> l -> lookup_loc l' (remove_loc l s) = lookup_loc l' s.
+Proof.
+  intro N. induction s as [|[k v] s IH]; cbn; [reflexivity|].
+  destruct (loc_eqb l k) eqn:E.
+  - apply loc_eqb_eq in E. subst k. rewrite (loc_eqb_neq _ _ N). exact IH.
+  - cbn. rewrite IH. reflexivity.
+Qed.
+
+Lemma sread_apply_other en c l : l <> changed_loc c -> sread (apply_change en c) l = sread en l.
+Proof.
+  intro N. destruct c; try (apply sread_set_other; exact N).
+  cbn in N. unfold sread, apply_change. cbn [store in_game].
+  rewrite (lookup_remove_other _ _ _ N). reflexivity.
+Qed.
+
 Definition rd_eqb (a b : rd) : bool :=
   match a, b with
   | RVal x, RVal y => value_eqb x y
@@ -427,14 +442,15 @@ Proof.
   destruct (announces en c && existsb (loc_eqb (changed_loc c)) (subs sb)) eqn:Fire; cbn [fst snd].
   - apply fresh_subscribe_now.
   - destruct F as [[en0 [r [T [O [L [P A]]]]]] | D]; [|right; assumption].
-    left. exists en0, r. repeat split; auto.
+    left. exists en0, r. split; [exact T|]. split; [exact O|]. split; [exact L|].
+    split; [rewrite P; destruct c; reflexivity|].
     intros l I. rewrite (A l I).
     destruct (loc_eqb l (changed_loc c)) eqn:E.
     + apply loc_eqb_eq in E. subst l.
       apply andb_false_iff in Fire as [Fa | Fe].
       * unfold honest in Hc. rewrite Fa in Hc. cbn in Hc. apply rd_eqb_eq in Hc. symmetry. exact Hc.
       * exfalso. eapply existsb_loc_in; eauto.
-    + unfold apply_change. symmetry. apply sread_set_other.
+    + symmetry. apply sread_apply_other.
       intro Q. subst l. rewrite (proj2 (loc_eqb_eq _ _) eq_refl) in E. discriminate.
 Qed.
 
